@@ -56,7 +56,7 @@ def env_step(a):
     raise vlib.ToolError("unknown model action %s" % n)
 
 
-ACCEPT_ACTIONS = {"APoll", "ABatch", "APop", "AAcceptSys", "AChoose", "ASend", "AInc", "ATimeout"}
+ACCEPT_ACTIONS = {"APoll", "ABatch", "APop", "AReset", "AAcceptSys", "AChoose", "ASend", "AInc", "ATimeout"}
 
 
 def path_to_steps(acts, quiescent_after=None, epilogue=True):
